@@ -47,6 +47,12 @@ def audit_cases(prop):
                       prompt="none" if prop == "C10" else "no"), False))
     out.append((_base(cls="local", types=["symlink"], relink=True, force=force, prior=None, target=tgt_names, cache=pool,
                       state_mode="noop", route="load", obj_names=True), False))
+    # the target read back from its .dir object in a BASE-class store (no trust-by-mode: HashFileDB.check re-hashes the
+    # tree object on every checkout) - the tree object itself is part of the cache that must not change
+    out.append((_base(cls="base", types=["copy"], force=force, prior=None, target=tgt_names, cache=pool,
+                      state_mode="absent", route="load"), False))
+    out.append((_base(cls="base", types=["hardlink"], relink=True, force=force, prior=prior_names, target=tgt_names,
+                      cache=pool, state_mode="shared", route="load"), False))
     # ---- 2. shapes: depth >= 3 through a directory of directories, duplicates in and across directories, zero-length
     #         files under hardlink, empty directories and directories of empty directories in the workspace, untracked
     #         paths, a one-file directory
